@@ -548,8 +548,8 @@ func run(tier, unit string, r *vlib.Rec) {
 				r.Sample(map[string]interface{}{"document": text, "warnings": exp})
 			}
 		}
-	case "rewarn": // every single removal of a line (depth 1 and 2) after the warnings have been asked for, assignments with <=1 deviation
-		sets := devSets(len(ss), ss, 1)
+	case "rewarn": // every single removal of a line (depth 1 and 2) after the warnings have been asked for, assignments with <=1 deviation (thorough: <=2)
+		sets := devSets(len(ss), ss, maxDev(tier)-1)
 		for i := lo; i < hi; i++ {
 			for vi := 0; ; vi++ {
 				k := kase{Variant: variant, Devs: sets[i], Victim: vi + 1}
@@ -601,7 +601,7 @@ func plan(tier string) []string {
 	}
 	for _, v := range []string{"k2", "small"} {
 		ss := slots(v)
-		out = append(out, vlib.Chunks("rewarn:"+v, int64(len(devSets(len(ss), ss, 1))), 8)...)
+		out = append(out, vlib.Chunks("rewarn:"+v, int64(len(devSets(len(ss), ss, maxDev(tier)-1))), 8)...)
 	}
 	ss := slots("small")
 	out = append(out, vlib.Chunks("perm:small", int64(len(devSets(len(ss), ss, maxDev(tier)-1))), 4)...)
